@@ -54,6 +54,9 @@ def path_op(ctx, job, box):
     cols, lines = job.params['geom']
     label, op, mk = job.params['opspec']
     opts = dict(cursor='pick', tabstops=1, savepoints=job.params.get('savepoints', 0), sp_charsets='fixed')
+    if job.params.get('remote'):
+        opts.update(remote_opts(cols, lines))
+        opts.update(dirty='none', titles='none', extra_mode=False)
     run = GridRun(ctx, box, cols, lines, **opts)
     L = run.L
     args = mk(ctx)
@@ -76,6 +79,12 @@ def jobs(tier):
     for g in gs:
         for spec in sweep.ops(tier, g[0], g[1]):
             js.append(Job('%s/%dx%d' % (spec[0], g[0], g[1]), path_op, opspec=spec, geom=g, prop=PROP))
+    # far from the small geometries: a sparsely written larger screen, cursor in the corners / middle / pending-wrap
+    for g in remote_geoms(tier, big=False):
+        for spec in sweep.remote_ops(g[0], g[1]):
+            if spec[1] == 'resize':
+                continue    # (remote resizes: C16's remote family, with sizes picked around the boundaries)
+            js.append(Job('remote/%s/%dx%d' % (spec[0], g[0], g[1]), path_op, opspec=spec, geom=g, remote=True, prop=PROP))
     # restore_cursor and resize with a symbolic saved cursor on the stack
     for g in gs[:2]:
         for spec in sweep.ops(tier, g[0], g[1]):
@@ -90,6 +99,7 @@ META = {
     'bounds': 'Screen::new for symbolic columns 1..=140, lines 1..=12 (thorough 40); every operation of the sweep from '
               'symbolic well-formed states on geometries quick {2x1,3x2,1x3}, thorough {1x1,2x1,1x2,3x2,2x3,1x4}; numeric '
               'arguments absent or 0..=9999; resize targets 1..=max+2 in both dimensions; DECCOLM executed for real',
-    'outside': 'larger geometries for grid operations (scalar operations are covered parametrically by C05/C06/C18); '
+    'outside': 'larger geometries for grid operations other than the sparsely written remote screens (quick 9x6; thorough '
+               '+ 17x9) (scalar operations are covered parametrically by C05/C06/C18); '
                'byte-level input (C01/C11)',
 }
